@@ -108,3 +108,9 @@ func (st *StateDB) VerifC09PeekValidator(addr common.Address) (val *Validator, l
 	}
 	return &data, false, false
 }
+
+// VerifC09PeekLive reports whether the live map holds an entry (deleted or not) for addr.
+func (st *StateDB) VerifC09PeekLive(addr common.Address) bool {
+	obj, ok := st.validatorObjects.Load(addr)
+	return ok && obj != nil
+}
